@@ -36,31 +36,54 @@ def rule_r1(ctx):
     kw = f.kwarg
     if kw is None:
         raise AnalysisError("Adjustments.__init__ has no **kw")
-    preds = []
     g = cfg_of(f)
-    for st in f.node.body:
-        if isinstance(st, ast.If) and any(isinstance(x, ast.Raise) for x in st.body):
-            test = g.test_of(st)
-            atoms = bool_atoms(test)
-            pat = re.compile(r"^'([a-z_]+)' in %s$" % re.escape(kw))
-            if atoms and all(pat.match(a) for a in atoms):
-                names = [pat.match(a).group(1) for a in atoms]
-                if all(n in GROUPS for n in names):
-                    exc = [x for x in st.body if isinstance(x, ast.Raise)]
-                    is_value_error = exc and isinstance(exc[0].exc, ast.Call) and dotted(exc[0].exc.func) == "ValueError"
-                    preds.append((st, atoms, names, is_value_error, test))
-    ctx.r.floor(rid, len(preds), 3, "exclusion predicates")
+    pat = re.compile(r"^'([a-z_]+)' in %s$" % re.escape(kw))
+    sets = [n for n, c in find_calls(g, lambda c: dotted(c.func) == "setattr")]
+
+    def run(env):
+        """Interpret the prefix of __init__ that consists of `'x' in kw` tests on the option groups for one subset of
+        given options: ('raise', node) | ('pass', node where the prefix ends).  Static: 32 abstract inputs over a
+        finite decision diagram, no code of the package is executed."""
+        n = g.entry
+        steps = 0
+        while steps < 400:
+            steps += 1
+            if n.kind == "test":
+                m = pat.match(norm(n.ast)) if isinstance(n.ast, ast.Compare) and isinstance(n.ast.ops[0], ast.In) else None
+                if not m or m.group(1) not in GROUPS:
+                    return ("pass", n)
+                nxt = [s for (s, l) in n.succ if s.kind == "branch" and s.polarity == env[m.group(1)]]
+                if not nxt:
+                    return ("pass", n)
+                n = nxt[0]
+                continue
+            if n.kind == "stmt":
+                a = n.ast
+                if isinstance(a, ast.Raise):
+                    return ("raise", n)
+                pure_flag = isinstance(a, ast.Assign) and all(isinstance(t, ast.Name) for t in a.targets) and all(pat.match(x) for x in bool_atoms(a.value))
+                if not (pure_flag or isinstance(a, ast.Pass)):
+                    return ("pass", n)
+            if n.kind in ("exit", "raise_exit"):
+                return ("pass", n)
+            nxt = [s for (s, l) in n.succ if l != "exc"]
+            if len(nxt) != 1:
+                return ("pass", n)
+            n = nxt[0]
+        raise AnalysisError("the exclusion prefix of Adjustments.__init__ does not end")
+    tests_seen = {id(n.ast) for n in g.nodes if n.kind == "test" and isinstance(n.ast, ast.Compare) and isinstance(n.ast.ops[0], ast.In) and (pat.match(norm(n.ast)) and pat.match(norm(n.ast)).group(1) in GROUPS)}
+    ctx.r.floor(rid, len(tests_seen), 6, "`'x' in kw` tests on the exclusive option groups")
     bad_rows = []
     rows = 0
+    late = None
     for present in itertools.product([False, True], repeat=5):
         env = dict(zip(GROUPS, present))
-        raised = False
-        for (st, atoms, names, ve, test) in preds:
-            asg = {a: env[n] for a, n in zip(atoms, names)}
-            if bool_eval(test, asg):
-                raised = True
-                if not ve:
-                    bad_rows.append((env, "raises something else than ValueError"))
+        kind, node = run(env)
+        raised = kind == "raise"
+        if raised and not (isinstance(node.ast.exc, ast.Call) and dotted(node.ast.exc.func) == "ValueError"):
+            bad_rows.append((env, "raises something else than ValueError"))
+        if raised and any(g.dominates(sn, node) for sn in sets):
+            late = node
         groups = {GROUPS[k] for k, v in env.items() if v}
         want = len(groups) >= 2
         rows += 1
@@ -72,15 +95,10 @@ def rule_r1(ctx):
         ctx.r.violation(rid, key_of(f, None, "exclusion-table::" + "+".join(given)),
                         "mutually exclusive options are not refused consistently: %d of 32 rows wrong, e.g. %s -> %s" % (len({str(b[0]) for b in bad_rows}), given, why), f.loc())
     else:
-        ctx.r.ok(rid, "all %d subsets agree with the oracle (%d predicates)" % (rows, len(preds)), f.loc())
+        ctx.r.ok(rid, "all %d subsets agree with the oracle (decision diagram of %d tests)" % (rows, len(tests_seen)), f.loc())
     # the predicates come before any assignment
-    g = cfg_of(f)
-    sets = [n for n, c in find_calls(g, lambda c: dotted(c.func) == "setattr")]
-    for (st, _, _, _, _) in preds:
-        tn = [n for n in g.nodes if n.kind == "test" and n.stmt is st]
-        if tn and all(g.dominates(tn[0], s) for s in sets):
-            continue
-        ctx.r.violation(rid, key_of(f, None, "exclusion-after-assign"), "an exclusion test runs after options were already applied", f.loc(st))
+    if late is not None:
+        ctx.r.violation(rid, key_of(f, None, "exclusion-after-assign"), "an exclusion test runs after options were already applied", f.loc(late.ast))
 
 
 def rule_r2(ctx):
@@ -166,19 +184,66 @@ def rule_r4(ctx, rid="C20.R4"):
     else:
         ctx.r.violation(rid, "known-kinds::" + ",".join(sorted(want ^ set(known))), "KNOWN_PROXY_HEADERS differs by %s" % sorted(want ^ set(known)), "src/waitress/adjustments.py")
 
-    def raising_if(pred, what, key):
-        for st in ast.walk(f.node):
-            if isinstance(st, ast.If) and pred(norm(st.test).replace(" ", "")) and any(isinstance(x, ast.Raise) and isinstance(x.exc, ast.Call) and dotted(x.exc.func) == "ValueError" for x in st.body):
-                ctx.r.ok(rid, what + " raises ValueError", f.loc(st))
-                return
-        ctx.r.violation(rid, key_of(f, None, "missing-crosscheck::" + key), what + " is not refused", f.loc())
+    # each cross-check is a `raise ValueError` whose path condition states the forbidden combination - however the tests
+    # are nested, ordered or spelled (`is not None` is the false outcome of `is None` in the CFG)
+    def lowered_expr(e):
+        """a set comprehension lower-casing the configured kinds, or a local that holds one"""
+        if isinstance(e, ast.Name):
+            src = resolve_locals(f, e)
+            e = src if src is not None else e
+        return isinstance(e, ast.SetComp) and "self.trusted_proxy_headers" in norm(e.generators[0].iter) and ".lower()" in norm(e.elt)
+    lowered_stores = [nd for nd in g.nodes if nd.kind == "stmt" and isinstance(nd.ast, ast.Assign) and any(dotted(t) == "self.trusted_proxy_headers" for t in nd.ast.targets) and lowered_expr(nd.ast.value)]
 
-    raising_if(lambda t: "self.trusted_proxy_countisnotNone" in t and "self.trusted_proxyisNone" in t and "and" in t, "trusted_proxy_count without trusted_proxy", "count-without-proxy")
-    raising_if(lambda t: t in ("self.trusted_proxy_headersandself.trusted_proxyisNone", "self.trusted_proxyisNoneandself.trusted_proxy_headers"), "trusted_proxy_headers without trusted_proxy", "headers-without-proxy")
-    raising_if(lambda t: t == "unknown_values", "unknown header kinds", "unknown-kinds")
-    raising_if(lambda t: "'forwarded'inself.trusted_proxy_headers" in t and "self.trusted_proxy_headers-{'forwarded'}" in t and "and" in t, "Forwarded together with X-Forwarded-*", "forwarded-and-x")
+    def is_h(e, at=None):
+        """the set of trusted header kinds; with `at` (a cfg node): in its lower-cased form there - a local holding the
+        lower-cased set, or the attribute after the lower-cased set was stored into it"""
+        if dotted(e) == "self.trusted_proxy_headers":
+            return at is None or any(g.dominates(sn, at) for sn in lowered_stores)
+        if isinstance(e, ast.Name):
+            if lowered_expr(e):
+                return True
+            src = resolve_locals(f, e)
+            return at is None and src is not None and dotted(src) == "self.trusted_proxy_headers"
+        return False
+
+    def fact(t, pol, at):
+        if isinstance(t, ast.Compare) and len(t.ops) == 1 and isinstance(t.ops[0], ast.Is) and isinstance(t.comparators[0], ast.Constant) and t.comparators[0].value is None:
+            d = dotted(t.left)
+            if d in ("self.trusted_proxy", "self.trusted_proxy_count"):
+                return (d.split(".")[1] + " is None", pol)
+        if is_h(t):
+            return ("headers given", pol)
+        if dotted(t) == "unknown_values":
+            return ("unknown kinds", pol)
+        if isinstance(t, ast.Compare) and len(t.ops) == 1 and isinstance(t.ops[0], ast.In) and isinstance(t.left, ast.Constant) and t.left.value == "forwarded" and is_h(t.comparators[0], at):
+            return ("forwarded trusted", pol)
+        if isinstance(t, ast.BinOp) and isinstance(t.op, ast.Sub) and is_h(t.left, at) and norm(t.right) == "{'forwarded'}":
+            return ("other kinds trusted", pol)
+        return ("?" + norm(t), pol)
+    raises = []
+    for nd in g.nodes:
+        if nd.kind == "stmt" and isinstance(nd.ast, ast.Raise) and isinstance(nd.ast.exc, ast.Call) and dotted(nd.ast.exc.func) == "ValueError":
+            raises.append((nd, {fact(t, pol, b) for (t, pol, b) in g.guards(nd)}))
+    related = ("trusted_proxy is None", "trusted_proxy_count is None", "headers given", "unknown kinds", "forwarded trusted", "other kinds trusted")
+    want = (
+        ("trusted_proxy_count without trusted_proxy", "count-without-proxy", {("trusted_proxy_count is None", False), ("trusted_proxy is None", True)}),
+        ("trusted_proxy_headers without trusted_proxy", "headers-without-proxy", {("headers given", True), ("trusted_proxy is None", True)}),
+        ("unknown header kinds", "unknown-kinds", {("unknown kinds", True)}),
+        ("Forwarded together with X-Forwarded-*", "forwarded-and-x", {("forwarded trusted", True), ("other kinds trusted", True)}),
+    )
+    for what, key, need in want:
+        hit = [nd for (nd, fs) in raises if need <= fs and all(k in related for (k, _p) in fs - need if not k.startswith("?")) and not any(k.startswith("?") and any(w in k for w in ("trusted_proxy", "unknown_values")) for (k, _p) in fs)
+               and not any((k, not p) in fs for (k, p) in need)]
+        # besides the forbidden combination itself only facts that it implies / that cannot exclude it may guard the refusal
+        hit = [nd for nd in hit if all((k, p) in need or (k, p) in {("headers given", True), ("unknown kinds", False), ("trusted_proxy is None", False), ("trusted_proxy_count is None", True), ("trusted_proxy_count is None", False)} - {(a, not b) for (a, b) in need}
+                                       or k.startswith("?") for (k, p) in dict(raises)[nd])]
+        if hit:
+            ctx.r.ok(rid, what + " raises ValueError", f.loc(hit[0].ast))
+        else:
+            ctx.r.violation(rid, key_of(f, None, "missing-crosscheck::" + key), what + " is not refused", f.loc())
     uv = [n for n in walk_own(f.node) if isinstance(n, ast.Assign) and dotted(n.targets[0]) == "unknown_values"]
-    if uv and norm(uv[0].value).replace(" ", "") == "self.trusted_proxy_headers-KNOWN_PROXY_HEADERS":
+    uvn = [nd for nd in g.nodes if nd.kind == "stmt" and uv and nd.ast is uv[0]]
+    if uv and uvn and isinstance(uv[0].value, ast.BinOp) and isinstance(uv[0].value.op, ast.Sub) and is_h(uv[0].value.left, uvn[0]) and norm(uv[0].value.right) == "KNOWN_PROXY_HEADERS":
         ctx.r.ok(rid, "unknown kinds = given - KNOWN_PROXY_HEADERS", f.loc(uv[0]))
     else:
         ctx.r.violation(rid, key_of(f, None, "unknown-values-formula"), "unknown_values is not trusted_proxy_headers - KNOWN_PROXY_HEADERS", f.loc())
@@ -349,7 +414,19 @@ def rule_r6(ctx, rid="C20.R6"):
         return
     lp = loops[0]
     txt = norm(lp)
-    if "is asbool" in txt and "'no-' + opt" in txt.replace('"', "'") and "opt + '='" in txt.replace('"', "'"):
+    gq = cfg_of(f)
+    shapes = {}  # spelling kind -> set of outcomes of `cast is asbool` under which it is registered
+    for nd, c in find_calls(gq, lambda c: isinstance(c.func, ast.Attribute) and c.func.attr in ("append", "extend") and isinstance(c.func.value, ast.Name)):
+        if not any(x is c for x in ast.walk(lp)):
+            continue
+        elts = list(c.args[0].elts) if (c.func.attr == "extend" and c.args and isinstance(c.args[0], (ast.Tuple, ast.List))) else list(c.args[:1])
+        pols = {pol for (t, pol) in guards_of(gq, nd) if isinstance(t, ast.Compare) and isinstance(t.ops[0], ast.Is) and norm(t.comparators[0]) == "asbool"}
+        for e in elts:
+            t = norm(e).replace('"', "'")
+            kind = "valued" if t.endswith("+ '='") else ("negated" if t.startswith("'no-' +") else ("bare" if isinstance(e, ast.Name) else None))
+            if kind:
+                shapes.setdefault(kind, set()).update(pols or {None})
+    if shapes.get("valued") == {False} and shapes.get("bare") == {True} and shapes.get("negated") == {True}:
         ctx.r.ok(rid, "booleans get --x and --no-x, everything else --x=", f.loc(lp))
     else:
         ctx.r.violation(rid, key_of(f, None, "option-shapes"), "boolean / valued option spellings are not generated as --x, --no-x / --x=", f.loc(lp))
@@ -583,6 +660,10 @@ RULES = [rule_r1, rule_r2, rule_r3, rule_r4, rule_r5, rule_r6, rule_r7, rule_r9,
 from ..selftest import M, T, V  # noqa: E402
 
 selftest = [
+    M("multi-run-no-poll", "server.py", "                map=self.map,\n                use_poll=self.adj.asyncore_use_poll,\n", "                map=self.map,\n", "R11"),
+    M("loop-ignores-use-poll", "wasyncore.py", "    if use_poll and hasattr(select, \"poll\"):", "    if hasattr(select, \"poll\"):", "R11"),
+    M("count-default-dropped", "adjustments.py", "        elif self.trusted_proxy_count is None:\n            self.trusted_proxy_count = 1\n", "", "R4"),
+    T("run-poll-via-local", "server.py", "    def run(self):\n        try:\n            self.asyncore.loop(\n                timeout=self.adj.asyncore_loop_timeout,\n                map=self.map,\n                use_poll=self.adj.asyncore_use_poll,\n            )", "    def run(self):\n        adj = self.adj\n        try:\n            self.asyncore.loop(adj.asyncore_loop_timeout, adj.asyncore_use_poll, self.map)"),
     M("exclusion-dropped", "adjustments.py", "        if \"sockets\" in kw and \"unix_socket\" in kw:\n            raise ValueError(\"unix_socket may not be set if sockets is set\")\n\n", "", "R1"),
     M("exclusion-or-to-and", "adjustments.py", "if \"listen\" in kw and (\"host\" in kw or \"port\" in kw):", "if \"listen\" in kw and (\"host\" in kw and \"port\" in kw):", "R1"),
     M("setattr-before-test", "adjustments.py", "            if k not in self._param_map:\n                raise ValueError(\"Unknown adjustment %r\" % k)\n            setattr(self, k, self._param_map[k](v))", "            if k not in self._param_map:\n                continue\n            setattr(self, k, self._param_map[k](v))", "R2"),
